@@ -37,6 +37,7 @@ type c18Flow struct {
 	lookups   int           // lookups since that insert
 	bound     int           // flows ever created at that insert (upper bound of the expired list)
 	uncertain bool          // a live flow was dropped: the statement does not say what follows
+	T         time.Duration // timeout configured when the flow was last honoured
 }
 
 func c18Timeout(proto uint8, tcp, udp, def time.Duration) time.Duration {
@@ -132,8 +133,14 @@ func c18History(rt *rapid.T) {
 
 	send := func(p firewall.Packet, incoming bool, k int, churn bool) {
 		ruleOK, _, _ := fwrAllowed(rules, n, peers[k], fwrTrusted, p, incoming)
-		T := c18Timeout(p.Protocol, tcp, udp, def)
+		Tcur := c18Timeout(p.Protocol, tcp, udp, def)
 		f := model[p]
+		// the idle timer of a flow is armed by its last honoured packet with the timeout configured at
+		// that moment (timeouts can change on a reload, see the "retime" step)
+		T := Tcur
+		if f != nil && f.T != 0 {
+			T = f.T
+		}
 		// every lookup purges at most one expired entry, before the tuple is looked up
 		for _, g := range model {
 			if g.advanced {
@@ -155,18 +162,18 @@ func c18History(rt *rapid.T) {
 				created++
 				// a fresh insert advances the wheel to now: flows past their deadline are on the expired list
 				for q, g := range model {
-					if q != p && !g.advanced && now > g.last+c18Timeout(q.Protocol, tcp, udp, def)+2*tick {
+					if q != p && !g.advanced && now > g.last+g.T+2*tick {
 						g.advanced, g.lookups, g.bound = true, 0, created
 					}
 				}
 			}
-			model[p] = &c18Flow{last: now}
+			model[p] = &c18Flow{last: now, T: Tcur}
 		}
 		switch {
 		case f != nil && f.uncertain:
 			labels["uncertain-skipped"]++
 			if passed {
-				f.last = now
+				f.last, f.T = now, Tcur
 			}
 		case f == nil:
 			if passed && !ruleOK {
@@ -186,7 +193,7 @@ func c18History(rt *rapid.T) {
 			switch {
 			case age < T: // (idle exactly T is observed as expired by evict's `Expires - now > 0`; left to the don't-care zone)
 				if passed {
-					f.last, f.advanced = now, false
+					f.last, f.advanced, f.T = now, false, Tcur
 					if !ruleOK {
 						labels["live-honoured"]++
 					}
@@ -199,7 +206,7 @@ func c18History(rt *rapid.T) {
 			case age <= T+2*tick:
 				labels["dont-care-zone"]++
 				if passed {
-					f.last, f.advanced = now, false
+					f.last, f.advanced, f.T = now, false, Tcur
 				} else if ruleOK {
 					fail("a packet allowed by a rule was dropped (harness sanity, C16)")
 				} else {
@@ -210,7 +217,7 @@ func c18History(rt *rapid.T) {
 					if !passed {
 						fail("a packet allowed by a rule was dropped (harness sanity, C16)")
 					}
-					f.last, f.advanced = now, false
+					f.last, f.advanced, f.T = now, false, Tcur
 					labels["expired-reestablished-by-rule"]++
 					break
 				}
@@ -230,7 +237,7 @@ func c18History(rt *rapid.T) {
 				if vk.KnownOpen("C18", c18Key) {
 					vk.Excluded("C18", c18Key)
 					labels["stale-probe-honoured(known-finding)"]++
-					f.last, f.advanced = now, false // the real table refreshed it
+					f.last, f.advanced, f.T = now, false, Tcur // the real table refreshed it
 					break
 				}
 				fail(fmt.Sprintf("expired flow still honoured: idle %v > timeout %v + 2 ticks (tick %v)", age, T, tick))
@@ -241,7 +248,25 @@ func c18History(rt *rapid.T) {
 	churnSeq := 0
 	steps := rapid.IntRange(4, 30).Draw(rt, "steps")
 	for s := 0; s < steps; s++ {
-		switch rapid.IntRange(0, 9).Draw(rt, "op") {
+		switch rapid.IntRange(0, 10).Draw(rt, "op") {
+		case 10:
+			// a reload that changes the conntrack timeouts: as Interface.reloadFirewall does, a new
+			// firewall is built from the same rules and adopts the existing conntrack table
+			tcp = rapid.SampledFrom(c18Durations).Draw(rt, "tcpTimeout2")
+			udp = rapid.SampledFrom(c18Durations).Draw(rt, "udpTimeout2")
+			def = rapid.SampledFrom(c18Durations).Draw(rt, "defaultTimeout2")
+			nfw, err := fwrNewFirewall(n, tcp, udp, def, rules)
+			if err != nil {
+				rt.Fatalf("rule set refused on reload: %v", err)
+			}
+			ct := fw.Conntrack
+			ct.Lock()
+			nfw.rulesVersion = fw.rulesVersion + 1
+			nfw.Conntrack = ct
+			ct.Unlock()
+			fw = nfw
+			labels["timeouts-reloaded"]++
+			trace = append(trace, fmt.Sprintf("reload with timeouts tcp=%v udp=%v default=%v", tcp, udp, def))
 		case 0, 1, 2, 3, 4:
 			f := flows[rapid.IntRange(0, len(flows)-1).Draw(rt, "flow")]
 			send(f.p, rapid.Bool().Draw(rt, "incoming"), f.peer, false)
